@@ -47,6 +47,10 @@ def gen_program(seed: int) -> Dict[str, Any]:
     entities: List[str] = []
     plain: List[str] = []
     labels_used = set()
+    # models are not always built around the origin in metres: large coordinates (mm) with small features
+    offset = [0.0, 0.0, 0.0]
+    if rs.chance(0.2):
+        offset = [round(rs.uniform(200, 3000), 1), round(rs.uniform(-500, 500), 1), 0.0]
     for i, c in enumerate(cells):
         corners = []
         for off in hexref.CORNER_POS:
@@ -54,13 +58,25 @@ def gen_program(seed: int) -> Dict[str, Any]:
             pid = f"n{node[0]}_{node[1]}_{node[2]}"
             if pid not in points:
                 jr = Stream(seed, "jit", pid)
-                points[pid] = [round(node[k] * spacing[k] + (jr.uniform(-jit, jit) if jit else 0.0), 6) for k in range(3)]
+                points[pid] = [round(offset[k] + node[k] * spacing[k] + (jr.uniform(-jit, jit) if jit else 0.0), 6) for k in range(3)]
             corners.append(points[pid])
         rot = hexref.IDENTITY if rs.chance(0.4) else rs.randrange(24)
         name = f"b{i}"
         ops.append({"op": "hex", "name": name, "corners": hexref.renumber(corners, rot)})
         entities.append(name)
         plain.append(name)
+        if i == 0 and rs.chance(0.2):
+            # a second block right behind a thin slit: a copy of this one, shifted by its own extent
+            # plus a gap of 1e-4 .. 1e-2 in x (distinct points, however large the coordinates)
+            xs = [p[0] for p in corners]
+            gap = round(10 ** rs.uniform(-4, -2), 6)
+            shift = max(xs) - min(xs) + gap
+            # the copy must not run into lattice cells on that side: only when this cell has no +x neighbour
+            if not any(cc[0] > c[0] for cc in cells):
+                twin = [[p[0] + shift, p[1], p[2]] for p in corners]
+                ops.append({"op": "hex", "name": "slit", "corners": hexref.renumber(twin, rot)})
+                entities.append("slit")
+                plain.append("slit")
     # other plain operations, far away from the lattice
     if rs.chance(0.35):
         k = rs.pick(["box", "extrude", "revolve"])
@@ -198,6 +214,9 @@ def gen_program(seed: int) -> Dict[str, Any]:
         ops.append({"op": "setting", "key": "scale", "value": rs.pick([0.001, 1, 0.5])})
     if rs.chance(0.15):
         ops.append({"op": "setting", "key": "mergeType", "value": "points"})
+    if rs.chance(0.15):
+        k_, v_ = rs.pick([("prescale", "(1 1 2)"), ("verbose", "true"), ("checkFaceCorrespondence", "false"), ("transform", "none")])
+        ops.append({"op": "setting", "key": k_, "value": v_})
     if early != "none":
         # edits made on an assembled mesh take effect at the next assembly
         ops.append(rs.pick([{"op": "clear"}, {"op": "backport"}]))
